@@ -207,14 +207,44 @@ fn random_strategy() -> impl Strategy<Value = (String, bool)> {
     prop_oneof![2 => enc, 1 => any]
 }
 
+/// long runs: strings whose number of reserved characters / carets / colour tokens sits at and around 255, 256, 257, 511, 512,
+/// 513, 65 535, 65 536, 65 537 (a counter narrower than usize, a capacity threshold)
+pub struct LongRuns;
+impl Part for LongRuns {
+    /// (unit string, repetitions, filler between units)
+    type Case = (String, usize, String);
+    fn name(&self) -> &'static str {
+        "long-runs-of-reserved-characters"
+    }
+    fn check(&self, c: &(String, usize, String), ev: &mut Local) -> Result<(), Fail> {
+        let mut s = String::with_capacity((c.0.len() + c.2.len()) * c.1);
+        for _ in 0..c.1 {
+            s.push_str(&c.0);
+            s.push_str(&c.2);
+        }
+        let mut scratch = Local::new();
+        scratch.frozen = true;
+        // the long string is not echoed into the failure message
+        judge(&s, &mut scratch, c.1 <= 600).map_err(|f| Fail::new(f.sig.clone(), format!("{:?} x {} (filler {:?}): {}", c.0, c.1, c.2, f.msg.chars().take(160).collect::<String>())))?;
+        ev.nontrivial(c);
+        Ok(())
+    }
+    fn to_json(&self, c: &(String, usize, String)) -> Value {
+        json!({"unit": c.0, "repetitions": c.1, "filler": c.2})
+    }
+    fn from_json(&self, v: &Value) -> Option<(String, usize, String)> {
+        Some((v.get("unit")?.as_str()?.to_string(), v.get("repetitions")?.as_u64()? as usize, v.get("filler")?.as_str()?.to_string()))
+    }
+}
+
 pub fn parts() -> Vec<Box<dyn DynPart>> {
-    vec![Box::new(Alphabet), Box::new(RandomText)]
+    vec![Box::new(Alphabet), Box::new(RandomText), Box::new(LongRuns)]
 }
 
 pub fn run(run: &mut Run) {
     let maxlen = run.budget(5, 6) as u32;
     run.rule = format!(
-        "All strings of length <= {maxlen} over 16 character-class representatives {ALPHABET:?} (complete), plus random strings \
+        "All strings of length <= {maxlen} over 16 character-class representatives {ALPHABET:?} (complete), plus runs of 254..65 537 reserved characters / carets / colour tokens, plus random strings \
          of up to 64 characters with ~25% carets (proptest). Oracles: unescape(escape(s)) == s; escape(s) contains no raw \
          reserved character; unescape(decode(encode(escape(s)))) == s for encodable text; strip == token model, idempotent, \
          identity on colourless text. Non-trivial = >= 2 carets or a caret followed by a letter."
@@ -224,4 +254,14 @@ pub fn run(run: &mut Run) {
     run.enumerate(&Alphabet, total, true, |i| nth(i, maxlen));
     let n = run.budget(400_000, 30_000_000);
     run.prop(&RandomText, random_strategy(), n);
+    // long runs around the widths of a narrow counter
+    let mut runs: Vec<(String, usize, String)> = vec![];
+    for unit in ["^", "/", "|", "*", ":", "\\", "?", "\"", "<", ">", "#", "^1", "^^", "^h", "a^"] {
+        for n in [254usize, 255, 256, 257, 258, 511, 512, 513, 1024, 65_535, 65_536, 65_537] {
+            for filler in ["", "x"] {
+                runs.push((unit.to_string(), n, filler.to_string()));
+            }
+        }
+    }
+    run.list(&LongRuns, "long-runs-of-reserved-characters", runs);
 }
